@@ -160,6 +160,41 @@ def extra(defs, lab, ab, src, label_max, name_max, lim, LIM):
     m = one(r"^\s*if usize::from\(left\.compose_len\(\) \+ right\.compose_len\(\)\)\s*(>=|>) " + LIM + r"\s*\{\s*Err\(LongChainError\(\(\)\)\)\s*\} else \{\s*Ok\(Chain \{ left, right \}\)\s*\}\s*$", b, "Chain::new")
     boo("chain_ge", ge(m.group(1))); nat("chain_lim", lim(m.group(2)))
     text_items(defs, lab, src)
+    message_zonefile_items(defs, ab, lim, LIM)
+
+
+def message_zonefile_items(defs, ab, lim, LIM):
+    """names read from messages (ParsedName::parse_ref, Name::parse) and from
+    zone-file text (scan_name / convert_label): the length literals and
+    operators at every site"""
+    def nat(name, v): defs.append((name, "nat", "%d%%nat" % v))
+    def boo(name, v): defs.append((name, "bool", "true" if v else "false"))
+    def ge(op): return op == ">="
+    pa = strip_comments(read("src/base/name/parsed.rs"))
+    b = fn_body(pa, "parse_ref", after="impl<'a, Octs: AsRef<[u8]> + ?Sized> ParsedName<&'a Octs>")
+    ms = list(re.finditer(r"LabelType::Normal\(label_len\) => \{\s*parser\.advance\(usize::from\(label_len\)\)\?;\s*name_len \+= label_len \+ 1;\s*if name_len (>=|>) " + LIM + r" \{\s*return Err\(ParsedDnameError::LongName\.into\(\)\);\s*\}\s*\}", b, re.S))
+    if len(ms) != 2:
+        raise GenError("parse_ref: expected the name length check in both phases, found %d" % len(ms))
+    for tag, m in zip(("phase1", "phase2"), ms):
+        boo("parse_ref_%s_ge" % tag, ge(m.group(1))); nat("parse_ref_%s_lim" % tag, lim(m.group(2)))
+    if len(re.findall(r"LabelType::Normal\(0\) => \{\s*name_len \+= 1;\s*return Ok\(ParsedName \{", b)) != 2:
+        raise GenError("parse_ref: root label arms changed")
+    b = fn_body(ab, "parse_name_len", after="impl<Octs> Name<Octs>")
+    m = one(r"if len (>=|>) " + LIM + r" \{\s*Err\(NameError\(DnameErrorEnum::LongName\)\.into\(\)\)", b, "Name::parse_name_len limit")
+    boo("name_parse_ge", ge(m.group(1))); nat("name_parse_lim", lim(m.group(2)))
+    zf = strip_comments(read("src/zonefile/inplace.rs"))
+    b = fn_body(zf, "convert_label")
+    m = one(r"let start = \*write;\s*\*write \+= 1;\s*let latest = \*write \+ " + NUM + r";", b, "convert_label latest")
+    nat("zf_label_latest_add", num(m.group(1)))
+    ms = list(re.finditer(r"\*write \+= 1;\s*if \*write (>=|>) latest \{\s*return Err\(EntryError::bad_name\(\)\);\s*\}", b, re.S))
+    if len(ms) != 2:
+        raise GenError("convert_label: expected the label length check on the fast and the slow path, found %d" % len(ms))
+    boo("zf_label_fast_ge", ge(ms[0].group(1))); boo("zf_label_slow_ge", ge(ms[1].group(1)))
+    b = fn_body(zf, "scan_name")
+    m = one(r"if write (>=|>) " + NUM + r" \{\s*return Err\(EntryError::bad_name\(\)\);\s*\}", b, "scan_name length check")
+    boo("zf_name_ge", ge(m.group(1))); nat("zf_name_lim", num(m.group(2)))
+    if len(re.findall(r"\.chain\(", b)) != 5:
+        raise GenError("scan_name: expected 5 chain() constructions (every exit goes through Chain::new)")
 
 
 def byte_lit(t):
